@@ -245,8 +245,9 @@ defvjp(
 
 defvjp(
     anp._astype,
-    lambda ans, A, dtype, order="K", casting="unsafe", subok=True, copy=True: lambda g: anp._astype(
-        g, A.dtype
+    # a cast to an integer or boolean dtype is piecewise constant: no derivative flows through it
+    lambda ans, A, dtype, order="K", casting="unsafe", subok=True, copy=True: lambda g: (
+        anp._astype(g, A.dtype) if onp.issubdtype(onp.dtype(dtype), onp.inexact) else vspace(A).zeros()
     ),
 )
 
